@@ -149,6 +149,15 @@ def check_roundtrip(rng, rec):
     p, spec = gen_parameter_set(rng)
     rec.count("roundtrips")
     before = {q.label: float(q.value) for q in p.all()}
+    other = None
+    if rng.integers(2):
+        # a second set - a copy moved elsewhere, as a backup or another start would be - is built LATER and stays alive
+        # while the first one makes its round trips: every set evaluates its expressions against its own values
+        other = p.copy()
+        ol, ox, _, _ = other.get_label_value_and_bounds_arrays(exclude_non_vary=True)
+        if len(ol):
+            other.set_from_label_and_value_arrays(ol, ox + 0.3 * (np.abs(ox) + 1.0))
+        rec.count("roundtrips_with_a_later_set_alive")
     labels, x, lo, hi = p.get_label_value_and_bounds_arrays(exclude_non_vary=True)
     want_free = [s["label"] for s in spec if s.get("vary", True) is not False and "expression" not in s]
     ctx = {"spec": spec}
@@ -224,6 +233,7 @@ def check_roundtrip(rng, rec):
         got = float(p.get(l).value)
         if not (got == newv or abs(got - newv) <= 1e-9 * abs(newv)):
             rec.violation("released-expression:roundtrip", ctx, f"{l}: {newv!r} -> {got!r} through the optimiser vector after its expression was removed")
+    del other
     return spec
 
 
